@@ -115,6 +115,50 @@ def sample_cps(tier):
     return ranges
 
 
+def evaluate_contexts(ck, cases, on_fail, count=True):
+    """cases: (site, class, spelling, template source, denoted string, data).  Each template is compiled and executed; the
+    string reaching the runtime at the site must be the denoted one.  on_fail(case, got) is called otherwise."""
+    size = 200
+    for k in range(0, len(cases), size):
+        ch = cases[k:k + size]
+        files = [["c%d" % i, c[3]] for i, c in enumerate(ch)]
+        vres = vlib.run_vh("tmpl", [{"id": k, "files": files, "want": ["groups"]}])[0]
+        if vres["panic"]:
+            # isolate
+            for i, c in enumerate(ch):
+                r1 = vlib.run_vh("tmpl", [{"id": 0, "files": [["c0", c[3]]], "want": ["groups"]}])[0]
+                if r1["panic"]:
+                    ck.notes.append("compiler panicked (C01): %r" % c[3][:80])
+            continue
+        warn_by_path = {w["path"]: (w["w"] or []) for w in vres["warn"]}
+        rejected = {i for i in range(len(ch)) if any(x[1] >= 3 for x in warn_by_path.get("c%d" % i, []))}
+        jc = [{"id": i, "path": "c%d" % i, "site": c[0], "expect": c[4], "data": c[5]} for i, c in enumerate(ch)]
+        nres = vlib.run_node("drive_str.js", [{"bundle": vres["groups"], "cases": jc}], jobs=1)[0]
+        if nres["errors"]:
+            # a case broke the bundle: find it (C02 would report it too)
+            for i, c in enumerate(ch):
+                r1 = vlib.run_vh("tmpl", [{"id": 0, "files": [["c0", c[3]]], "want": ["groups"]}])[0]
+                n1 = vlib.run_node("drive_str.js", [{"bundle": r1.get("groups", ""), "cases": [{"id": 0, "path": "c0", "site": c[0], "expect": c[4], "data": c[5]}]}], jobs=1)[0]
+                ck.evaluations += 1
+                if n1["errors"] or not n1["results"][0]["ok"]:
+                    got = n1["errors"][0] if n1["errors"] else n1["results"][0]["got"]
+                    on_fail(c, got)
+            continue
+        for ci_, (c, r) in enumerate(zip(ch, nres["results"])):
+            if ci_ in rejected:
+                # the parser refused this spelling with an Error diagnostic: it denotes nothing
+                ck.extra["spellings_not_accepted"] = ck.extra.get("spellings_not_accepted", 0) + 1
+                continue
+            ck.evaluations += 1
+            ck.traces += 1
+            if count:
+                ck.nontrivial("%s|%s|%s" % (c[0], c[1], c[2]))
+            if not r["ok"]:
+                on_fail(c, r["got"])
+            elif count and len(ck.samples) < 3 and c[1] in ("LS", "ASTRAL", "NULDIGIT"):
+                ck.sample({"site": c[0], "class": c[1], "spelling": c[2], "source": c[3], "reaches_runtime_as": r["got"]})
+
+
 def run(tier, seed, replay):
     ck = vlib.Check("C12", tier, seed)
     ck.rule = ("literals = encoder output for code points (all 1 112 064 scalars in thorough; ASCII, Latin-1, U+2000-20FF, surrogate "
@@ -191,44 +235,8 @@ def run(tier, seed, replay):
         c = json.load(open(replay))["case"]
         cases = [(c["site"], c["cls"], c["mode"], c["src"], c["expect"], c.get("data"))]
     # 3. contexts
-    size = 200
-    for k in range(0, len(cases), size):
-        ch = cases[k:k + size]
-        files = [["c%d" % i, src] for i, (_, _, _, src, _, _) in enumerate(ch)]
-        vres = vlib.run_vh("tmpl", [{"id": k, "files": files, "want": ["groups"]}])[0]
-        if vres["panic"]:
-            # isolate
-            for i, c in enumerate(ch):
-                r1 = vlib.run_vh("tmpl", [{"id": 0, "files": [["c0", c[3]]], "want": ["groups"]}])[0]
-                if r1["panic"]:
-                    ck.notes.append("compiler panicked (C01): %r" % c[3][:80])
-            continue
-        warn_by_path = {w["path"]: (w["w"] or []) for w in vres["warn"]}
-        rejected = {i for i in range(len(ch)) if any(x[1] >= 3 for x in warn_by_path.get("c%d" % i, []))}
-        jc = [{"id": i, "path": "c%d" % i, "site": site, "expect": exp, "data": data} for i, (site, _, _, _, exp, data) in enumerate(ch)]
-        nres = vlib.run_node("drive_str.js", [{"bundle": vres["groups"], "cases": jc}], jobs=1)[0]
-        if nres["errors"]:
-            # a case broke the bundle: find it (C02 would report it too)
-            for i, c in enumerate(ch):
-                r1 = vlib.run_vh("tmpl", [{"id": 0, "files": [["c0", c[3]]], "want": ["groups"]}])[0]
-                n1 = vlib.run_node("drive_str.js", [{"bundle": r1.get("groups", ""), "cases": [{"id": 0, "path": "c0", "site": c[0], "expect": c[4], "data": c[5]}]}], jobs=1)[0]
-                ck.evaluations += 1
-                if n1["errors"] or not n1["results"][0]["ok"]:
-                    got = n1["errors"][0] if n1["errors"] else n1["results"][0]["got"]
-                    ck.report({"sig": "context", "site": c[0], "cls": c[1], "mode": c[2], "src": c[3], "expect": c[4], "data": c[5], "got": got},
-                              "%s / %s / %s: %r reaches the runtime as %r, denoted %r" % (c[0], c[1], c[2], c[3], got, c[4]))
-            continue
-        for ci_, (c, r) in enumerate(zip(ch, nres["results"])):
-            if ci_ in rejected:
-                # the parser refused this spelling with an Error diagnostic: it denotes nothing
-                ck.extra["spellings_not_accepted"] = ck.extra.get("spellings_not_accepted", 0) + 1
-                continue
-            ck.evaluations += 1
-            ck.traces += 1
-            ck.nontrivial("%s|%s|%s" % (c[0], c[1], c[2]))
-            if not r["ok"]:
-                ck.report({"sig": "context", "site": c[0], "cls": c[1], "mode": c[2], "src": c[3], "expect": c[4], "data": c[5], "got": r["got"]},
-                          "%s / %s / %s: %r reaches the runtime as %r, denoted %r" % (c[0], c[1], c[2], c[3], r["got"], c[4]))
-            elif len(ck.samples) < 3 and c[1] in ("LS", "ASTRAL", "NULDIGIT"):
-                ck.sample({"site": c[0], "class": c[1], "spelling": c[2], "source": c[3], "reaches_runtime_as": r["got"]})
+    def on_fail(c, got):
+        ck.report({"sig": "context", "site": c[0], "cls": c[1], "mode": c[2], "src": c[3], "expect": c[4], "data": c[5], "got": got},
+                  "%s / %s / %s: %r reaches the runtime as %r, denoted %r" % (c[0], c[1], c[2], c[3], got, c[4]))
+    evaluate_contexts(ck, cases, on_fail)
     return ck.finish()
